@@ -19,11 +19,13 @@ func runC02(p *Program, r *Report) {
 	r.Rule("R02.3", "E2", 15, "key lookups use the request identity: at every data-plane call of a per-client keystore getter the id argument, followed back across calls, ends only in the access context's client id, a token context's ClientID, the (already overridden) request ClientId, the connection identity, a column setting's ClientID, or nil; a constant, global or service field is a violation")
 	r.Rule("R02.4", "E2", 30, "owner-bound key encryption: every KeyEncryptor.Encrypt/Decrypt call of the v1 keystore takes a context built by NewClientIDKeyContext/NewKeyContext from the same id that names the key; every NewClientIDKeyContext id derives from the enclosing function's own id/filename parameter; v2 contexts include the ring path and the key seqnum with distinct purpose strings")
 	r.Rule("R02.5", "E2", 6, "token scoping: the data id hash and the storage context hash absorb the client id (or additional context) and the data id also the value and the token type; the token encryptor binds ciphertexts to the same context")
+	r.Rule("R02.6", "E2", 2, "the connection identity is a pure function of the peer certificate: the client id returned by tlsClientIDExtractor.ExtractClientID derives only from idConverter.Convert(idExtractor.GetCertificateIdentifier(certificate)) of this very call — no remembered state, cache or other input")
 	ruleR021(p, r)
 	ruleR022(p, r)
 	ruleR023(p, r)
 	ruleR024(p, r)
 	ruleR025(p, r)
+	ruleR026(p, r)
 }
 
 func ruleR021(p *Program, r *Report) {
@@ -506,6 +508,37 @@ func ruleR024(p *Program, r *Report) {
 	mustFlow(v2+"(*KeyRing).privateKeyContext", "key seqnum", isParam("seqnum"))
 	mustFlow(v2+"(*KeyRing).symmetricKeyContext", "key seqnum", isParam("seqnum"))
 	mustFlow(v2+"(*KeyStore).keyRingSignatureContext", "ring path", isParam("path"))
+	// the ring path enters the context unmodified (conversions only): a lossy transformation (base name, prefix,
+	// hash truncation) makes rings of different owners share one context
+	exactAppend := func(spec, what string, pred func(ssa.Value) bool) {
+		fn := p.Func(spec)
+		if fn == nil || fn.Blocks == nil {
+			return // already reported as anchor by mustFlow
+		}
+		ok := false
+		for _, ret := range returnsOf(fn) {
+			if isRecoverBlock(ret.Block()) || len(ret.Results) == 0 {
+				continue
+			}
+			for v := range backClosure(retValue(ret, 0)) {
+				c, isCall := v.(*ssa.Call)
+				if !isCall {
+					continue
+				}
+				if b, isB := c.Call.Value.(*ssa.Builtin); !isB || b.Name() != "append" || len(c.Call.Args) != 2 {
+					continue
+				}
+				leaves := leavesOf(c.Call.Args[1], leafOpts{})
+				if len(leaves) == 1 && pred(leaves[0]) {
+					ok = true
+				}
+			}
+		}
+		r.Check(ok, "R02.4", fnName(fn), what+" enters the context unmodified", p.Pos(fn.Pos()), "appended as is (conversions only)", what+" reaches the context only through a transformation: distinct owners/paths can map to the same context, so a key ring relocated to another owner's path still verifies and decrypts")
+	}
+	exactAppend(v2+"(*KeyRing).keyRingContext", "ring path", isFieldLoad("path"))
+	exactAppend(v2+"(*KeyRing).keyRingContext", "purpose context", isParam("context"))
+	exactAppend(v2+"(*KeyStore).keyRingSignatureContext", "ring path", isParam("path"))
 	// distinct purpose strings
 	fmtOf := func(spec string) string {
 		fn := p.Func(spec)
@@ -662,4 +695,47 @@ func init() {
 	mut("C02", "HMAC key context uses a constant owner", "keystore/filesystem/server_keystore.go", "	keyContext := keystore.NewClientIDKeyContext(keystore.PurposeSearchHMAC, id)\n	encryptedKey, err := store.encryptor.Encrypt(store.encryptorCtx, key, keyContext)", "	keyContext := keystore.NewClientIDKeyContext(keystore.PurposeSearchHMAC, []byte(\"hmac\"))\n	encryptedKey, err := store.encryptor.Encrypt(store.encryptorCtx, key, keyContext)", "R02.4", "GenerateHmacKey")
 	mut("C02", "v2 ring context drops the ring path", "keystore/v2/keystore/filesystem/keyRing.go", "	c = append(c, r.path...)\n", "", "R02.4", "keyRingContext")
 	mut("C02", "token id hash drops the client id", "pseudonymization/tokenizer.go", "		h.Write([]byte(`client`))\n		h.Write(context.ClientID)\n	}\n	h.Write(dataIDDelim)", "		h.Write([]byte(`client`))\n	}\n	h.Write(dataIDDelim)", "R02.5", "generateDataID")
+}
+
+func ruleR026(p *Program, r *Report) {
+	fn := p.Func("network.(*tlsClientIDExtractor).ExtractClientID")
+	if fn == nil || fn.Blocks == nil {
+		r.Anchor("R02.6", "network.(*tlsClientIDExtractor).ExtractClientID")
+		return
+	}
+	cert := fn.Params[len(fn.Params)-1]
+	name := fnName(fn)
+	for _, ret := range returnsOf(fn) {
+		if isRecoverBlock(ret.Block()) {
+			continue
+		}
+		v := retValue(ret, 0)
+		if isNilConst(v) {
+			r.OK("R02.6", name, "exit "+retText(p, ret), p.Pos(ret.Pos()), "no identity returned")
+			continue
+		}
+		bad := ""
+		for _, leaf := range leavesOf(v, leafOpts{}) {
+			ex, ok := leaf.(*ssa.Extract)
+			var conv *ssa.Call
+			if ok {
+				conv, _ = ex.Tuple.(*ssa.Call)
+			}
+			if conv == nil || !conv.Common().IsInvoke() || conv.Common().Method.Name() != "Convert" || ex.Index != 0 {
+				bad = "returned identity comes from " + leaf.String() + ", not from idConverter.Convert of this call"
+				continue
+			}
+			for _, l2 := range leavesOf(conv.Common().Args[0], leafOpts{}) {
+				ex2, ok := l2.(*ssa.Extract)
+				var get *ssa.Call
+				if ok {
+					get, _ = ex2.Tuple.(*ssa.Call)
+				}
+				if get == nil || !get.Common().IsInvoke() || get.Common().Method.Name() != "GetCertificateIdentifier" || ex2.Index != 0 || len(get.Common().Args) != 1 || get.Common().Args[0] != ssa.Value(cert) {
+					bad = "identifier handed to Convert comes from " + l2.String() + ", not from GetCertificateIdentifier(certificate)"
+				}
+			}
+		}
+		r.Check(bad == "", "R02.6", name, "exit "+retText(p, ret), p.Pos(ret.Pos()), "Convert(GetCertificateIdentifier(certificate)) of this call", bad+": a request can run under an identity derived from an earlier connection or a partial view of the certificate")
+	}
 }
